@@ -107,7 +107,7 @@ func (s *OperationProcessor) Resolve(uniqueSuffix string, opts ...document.Resol
 	// Ensure that all published 'create' operations are processed first (in case there are
 	// unpublished 'create' operations in the collection due to race condition).
 	sort.SliceStable(createOps, func(i, j int) bool {
-		return createOps[i].CanonicalReference != ""
+		return createOps[i].CanonicalReference != "" && createOps[j].CanonicalReference == ""
 	})
 
 	// apply 'create' operations first
